@@ -11,27 +11,27 @@ META = {
     "level": "model_checking",
     "engine": "sync",
     "technique": "TLA+ spec SyncProto model-checked with TLC and every reachable state's witness path plus every outgoing call replayed into the real SyncRequester/SyncResponder (spec->impl conformance); byte level: TLA+ grammar SyncWire enumerates mutation cells that the engine concretises on the real decoders (exploration part)",
-    "text": "(a) model_checking: TLC explores both protocol machines under every sequence of up to 5 calls — poll, and every message kind with own/foreign session id, next/skipped/repeated response index, SyncEnd with right/wrong max_index, malformed command lengths, unsupported requests, unknown graph, big/small/tiny poll buffers — checking that commands are accepted only for the own session and the next index, responses are labelled 0,1,2.. with the adopted session, an unsupported request is an error that leaves the machine ready() and the next poll closes the session, ready() is false exactly when poll answers NotReady, and a foreign-session message changes nothing. The machines are deterministic functions of their state, so replaying one witness per reachable state and every call from it covers every behaviour: the engine builds the messages with a self-tested mirror of the wire types, drives real machines on real storage (two-response sessions) and decides those predicates on the real results (plus: returned command slices lie inside the received bytes). (b) exploration inside this check: the SyncWire grammar (24 message templates, field kinds tag/varint/id/sequence length/bool/length fields/trailing data) yields 749 mutation cells — cut before and inside every field, unknown and oversized enum tags, overlong and maximal varints, id length 31/33/huge, element counts above the heapless capacities with and without elements, bool 2, policy_length/length beyond the remaining bytes, trailing data — which the engine applies to real encodings and feeds to SyncIncoming::decode and the dispatch of every variant (responder receive+poll, update_heads, receive_push + add_commands, hello accessors, should_sync_on_hello), SyncRequester::receive (+ add_commands) and SubscribeResponse::decode, together with seeded random byte strings and byte-level mutations of all valid encodings; decided: no panic, no command slice outside the received buffer; the unmutated templates must be accepted.",
-    "note": "Bounds: MaxDepth 5 per machine, Resp = 2 responses per session; 749 cells + 20 000 (thorough 300 000) random inputs x 4 entry points. push on a known graph is not modelled in SyncProto (fresh responder per push in every transport). Builds keep debug assertions on, so `bug!` conditions reachable from peer input count as panics. The literal 'all byte strings' is not reachable by this technique; part (b) is exploration with the TLA+ grammar as enumerator and oracle.",
+    "text": "(a) model_checking: TLC explores both protocol machines under every sequence of up to 5 calls — poll, and every message kind — delivered through receive and, wrapped in a SyncType::Push, through SyncIncoming::decode + receive_push — with own/foreign session id, next/skipped/repeated response index, SyncEnd with right/wrong max_index, malformed command lengths, unsupported requests, unknown graph, big/small/tiny poll buffers — checking that commands are accepted only for the own session and the next index, responses are labelled 0,1,2.. with the adopted session, an unsupported request is an error that leaves the machine ready() and the next poll closes the session, ready() is false exactly when poll answers NotReady, and a foreign-session message changes nothing. The machines are deterministic functions of their state, so replaying one witness per reachable state and every call from it covers every behaviour: the engine builds the messages with a self-tested mirror of the wire types, drives real machines on real storage (two-response sessions) and decides those predicates on the real results (plus: returned command slices lie inside the received bytes). (b) exploration inside this check: the SyncWire grammar (24 message templates, field kinds tag/varint/id/sequence length/bool/length fields/trailing data) yields 749 mutation cells — cut before and inside every field, unknown and oversized enum tags, overlong and maximal varints, id length 31/33/huge, element counts above the heapless capacities with and without elements, bool 2, policy_length/length beyond the remaining bytes, trailing data — which the engine applies to real encodings and feeds to SyncIncoming::decode and the dispatch of every variant (responder receive+poll, update_heads, receive_push + add_commands, hello accessors, should_sync_on_hello), SyncRequester::receive (+ add_commands) and SubscribeResponse::decode, together with seeded random byte strings and byte-level mutations of all valid encodings; decided: no panic, no command slice outside the received buffer; the unmutated templates must be accepted.",
+    "note": "Bounds: MaxDepth 5 per machine, Resp = 2 responses per session; 749 cells + 20 000 (thorough 300 000) random inputs x 4 entry points. The responder's push is modelled for its use in the transports (first call after a request on a fresh responder); mixing push and poll on one responder is not. Builds keep debug assertions on, so `bug!` conditions reachable from peer input count as panics. The literal 'all byte strings' is not reachable by this technique; part (b) is exploration with the TLA+ grammar as enumerator and oracle.",
 }
 
 
 def run(ctx):
     vh = ctx.build("sync")
-    rq = ctx.tlc("SyncProto", "MC_SyncProto_req.cfg", timeout=900)
-    ctx.require_actions(rq, ["Do"])
-    rr = ctx.tlc("SyncProto", "MC_SyncProto_resp.cfg", timeout=900)
-    ctx.require_actions(rr, ["Do"])
+    rp = ctx.tlc("SyncProto", "MC_SyncProto.cfg", timeout=900)
+    ctx.require_actions(rp, ["Next"])
+    req_beh = [b for b in rp.replays if b["side"] == "req"]
+    resp_beh = [b for b in rp.replays if b["side"] == "resp"]
     rw = ctx.tlc("SyncWire", "MC_SyncWire.cfg", timeout=900, coverage=False)
     if ctx.replay:
         case = json.load(open(ctx.replay))["case"]["input"]
         sub = "wire" if "fam" in case else "proto"
         ctx.absorb(ctx.run_engine(vh, sub, [case], opts={"random": 300000 if ctx.thorough else 20000} if sub == "wire" else None))
         return
-    beh = rq.replays + rr.replays
-    if not rq.replays or not rr.replays or not rw.replays:
+    beh = req_beh + resp_beh
+    if not req_beh or not resp_beh or not rw.replays:
         raise verif.ToolError("TLC emitted no behaviours")
-    accepts = sum(1 for b in rq.replays for s in b["steps"] if s["exp"]["res"] == "cmds")
+    accepts = sum(1 for b in req_beh for s in b["steps"] if s["exp"]["res"] == "cmds")
     if accepts == 0:
         raise verif.ToolError("vacuous: no behaviour in which the requester accepts commands")
     res = ctx.run_engine(vh, "proto", beh)
@@ -46,7 +46,7 @@ def run(ctx):
     ctx.absorb(wres, count_traces=False)
     # binding self-tests: (a) a perturbed expectation is noticed as drift, and a forged acceptance
     # (spec says the requester must not accept) is a failure; (b) the panic detector works
-    cand = next(b for b in rq.replays if any(s["exp"]["res"] == "cmds" for s in b["steps"]))
+    cand = next(b for b in req_beh if any(s["exp"]["res"] == "cmds" for s in b["steps"]))
     bad = json.loads(json.dumps(cand))
     k = next(i for i, s in enumerate(bad["steps"]) if s["exp"]["res"] == "cmds")
     bad["steps"][k]["exp"]["res"] = "SessionState"
@@ -62,6 +62,7 @@ def run(ctx):
         "proto_states_replayed": len(beh),
         "proto_transitions_replayed": sum(len(b["fan"]) for b in beh),
         "requester_acceptances_in_witnesses": accepts,
+        "push_calls_replayed": sum(1 for b in beh for c in b["steps"] + b["fan"] if c["call"]["call"] == "push"),
         "wire": {"rule": "one cell per (template, field, mutation of its kind) + none + trailing; random cell = seeded random bytes and byte-level mutations of valid encodings through all entry points",
                  "cells": len(cells), "evaluations": evals, "distinct_nontrivial": nontrivial,
                  "random_inputs": nrand, "level": "exploration"},
